@@ -64,6 +64,11 @@ RULE = ("cases = scenario templates over a catalogue of 44 class specifications 
         "A re-observed at the end); RETRY: a definition rejected late (cache_hash without hash / with init=False, frozen "
         "+ on_setattr, own __setattr__ + hooks) then a valid decorator on the SAME class object (harness-only `obj`), "
         "which must come out like a fresh class; "
+        "(0i) ARGMUT: the caller's own LIST objects that a factory has already taken in -- attr.s(on_setattr=[..]) of a KEPT "
+        "decorator object (classic front end only), attr.ib(validator=[..] / on_setattr=[..]) of shared counting attrs and "
+        "`these` fields -- get another member appended BETWEEN creation / applications of the decorator object (a harness-only "
+        "`mut` flavour of the use step, erased in the other universe like every use): dedicated template (create, [apply], "
+        "mutate, apply; 11 argument sets), half of the attr.s(on_setattr=list) pairs, a fifth of all inserted use steps; "
         "(5) shared counting attrs (also re-declared base fields) with @ca.validator/@ca.default between definitions; (6) fields over shared "
         "argument containers with appends between definitions; (7) random mixtures with histories up to 6 steps. "
         "non-trivial = the history contains at least one definition that succeeded; distinct = distinct JSON case")
@@ -95,6 +100,11 @@ ASSUMPTIONS = [
     "pre/post-init log) is what 'behaviour of a class' means here; state that influences none of these is not seen",
     "the user's own operations on shared objects (@ca.validator, @ca.default, list.append, dict item assignment) are part "
     "of the scenario in both universes; only attrs's definition machinery is required to leave arguments alone",
+    "a list handed to attr.s(on_setattr=[..]) or attr.ib(validator=[..] / on_setattr=[..]) is taken in when the factory is called "
+    "(pipe / and_ built at once): what the caller appends to ITS list afterwards is no argument of any later definition and "
+    "is erased with the uses; define()/mutable()/frozen() re-call attrs() per class and so read the caller's on_setattr list "
+    "at every application on the unchanged source, and a `these` dict is read at every application by design: those shapes "
+    "are not mutated (the `mut` step leaves them alone); the model treats the step as a use (no-op)",
     "closure cells are read through __closure__/co_freevars (CPython); a cell that no longer exists counts as unchanged; "
     "a rebinding of any closure variable of a decorator object between applications is reported even if it were "
     "behaviour-neutral (the property's anchor: per-decorator configuration must not change between applications)",
@@ -431,7 +441,10 @@ def t_pair(rng, dname, aname, bname):
     a, b = _cat(aname, na, rng), _cat(bname, nb, rng)
     if rng.random() < 0.25 and not any(f["name"] == "b" for f in b["fields"]):
         b["base"] = a["base"]          # both below the very same base class object
-    return scenario([d], [defDeco(0, a)], defDeco(0, b), cas=[CA()], tpl="pair")
+    steps = [defDeco(0, a)]
+    if d["api"] == "attrS" and d["onSetattr"] == "list" and rng.random() < 0.5:
+        steps.append(mut_step(rng))       # the caller goes on using the list it handed to attr.s(on_setattr=[..])
+    return scenario([d], steps, defDeco(0, b), cas=[CA()], tpl="pair")
 
 
 def t_triple(rng):
@@ -799,7 +812,15 @@ FROZEN_DICT_DECOS = [A("define", slots=False, frozen=True), A("frozen", slots=Fa
 
 
 def use_step(rng):
+    if rng.random() < 0.2:
+        return mut_step(rng)
     return {"use": {"k": rng.randrange(10000)}}
+
+
+def mut_step(rng):
+    """harness-only flavour of a use step: the caller appends to every list object of its own that a factory has
+    already taken in (attr.s(on_setattr=[..]), attr.ib(validator=[..] / on_setattr=[..]) of shared fields)"""
+    return {"use": {"k": rng.randrange(10000), "mut": True}}
 
 
 def with_use(case, rng):
@@ -909,7 +930,44 @@ def t_env(rng):
     return scenario([d], steps, defDeco(0, _cat(tgt, "B", rng)), cas=[CA(nValid=1)], tpl="env")
 
 
+ARGMUT_DECOS = [A("attrS", onSetattr="list"), A("attrS", onSetattr="list", autoDetect=True), A("attrS", onSetattr="list", slots=True),
+                A("attrS", onSetattr="list", these=True), A("attrS", onSetattr="list", kwOnly=True, autoDetect=True),
+                A("attrS", onSetattr="list", eq="f"), A("attrS", onSetattr="list", x={"collect_by_mro": True}),
+                A("attrS", these=True), A("attrS", onSetattr="list", autoAttribs="t"), A("attrS"), A("define", these=True)]
+ARGMUT_TARGETS = ["annOnly", "fieldOnly", "convVal", "noConvVal", "mixedAnn", "valOnly", "mutableBaseAttrS", "plainBase",
+                  "usesCa0", "usesCa0Unann", "fieldHookNoOp", "kwOnlyField"]
+
+
+def t_argmut(rng):
+    """a KEPT decorator object created from the caller's own list objects (attr.s(on_setattr=[h..]), shared counting
+    attrs and `these` fields made with validator=[..] / on_setattr=[..]); it is applied, the caller appends to its lists
+    (they were taken in when the factory was called), it is applied again: create, [apply], mutate, apply"""
+    k = rng.choice([1, 1, 2])
+    decos = [copy.deepcopy(rng.choice(ARGMUT_DECOS)) for _ in range(k)]
+    if not any(d["onSetattr"] == "list" for d in decos) or rng.random() < 0.5:
+        decos[0] = copy.deepcopy(rng.choice(ARGMUT_DECOS[:7]))
+    these = []
+    if any(d["these"] for d in decos):
+        these = [F("tx", False, nValid=rng.choice([0, 2, 3]), hook=rng.choice(["n", "list"]), conv=rng.random() < 0.3),
+                 F("ty", False, default=True, nValid=rng.choice([0, 2]))][:rng.choice([1, 2])]
+    cas = [CA(nValid=rng.choice([0, 2, 2, 3]), hook=rng.choice(["n", "list", "list"]), conv=rng.random() < 0.3)]
+    n = rng.choice([1, 1, 2, 3])
+    ns = _names(rng, n + 1)
+
+    def cls(i, pool):
+        return _cat(rng.choice(pool), ns[i], rng)
+
+    steps = [defDeco(rng.randrange(k), cls(i, CAT if rng.random() < 0.5 else ARGMUT_TARGETS)) for i in range(n)]
+    steps.insert(rng.choice([0, 1, 1, len(steps), len(steps)]), mut_step(rng))
+    if rng.random() < 0.3:
+        steps.insert(rng.randrange(len(steps) + 1), rng.choice(USER_OPS + ["caValidator"]))
+        if steps and "caValidator" in steps:
+            steps[steps.index("caValidator")] = {"caValidator": {"j": 0}}
+    return scenario(decos, steps, defDeco(rng.randrange(k), cls(n, ARGMUT_TARGETS)), these=these, cas=cas, tpl="argmut")
+
+
 TEMPLATES.insert(6, t_env)
+TEMPLATES.insert(2, t_argmut)
 TEMPLATES.insert(3, t_use)
 TEMPLATES.insert(9, t_thread)
 TEMPLATES.insert(5, t_retry)
@@ -918,7 +976,7 @@ TEMPLATES.insert(5, t_retry)
 def _gen_cases(tier, rng):
     # 0. layout twins first (library-global state keyed by field layout needs no shared decorator or container)
     for i in range(1000 if tier == "quick" else 40000):
-        yield (t_twin, t_siblings, t_pool, t_lists, t_env, t_use, t_thread, t_retry, t_twin)[i % 9](rng)
+        yield (t_twin, t_siblings, t_pool, t_lists, t_env, t_use, t_thread, t_retry, t_twin, t_argmut)[i % 10](rng)
     # 1. every (decorator, A) of the catalogue through one shared decorator object, B from the sensitive set
     if tier == "quick":
         order = [(d, a) for d in DECO_NAMES for a in CAT]
